@@ -10,21 +10,47 @@
 
 pub use shuttle;
 
-/// `std::thread::LocalKey` with the convenience methods the standard library offers for `Cell` / `RefCell` keys (shuttle's
-/// own key only has `with` / `try_with`). One model thread = one rayon task, so a key is FRESH in every task: the model
-/// explores the executions in which each task runs on a worker that has not touched the key before.
+/// `std::thread::LocalKey`, modelled as WORKER-local rather than task-local state.
+///
+/// In real rayon a thread-local belongs to a worker thread and survives from one task to the next task that happens to run
+/// on that worker (also to a task the worker steals while it waits in a `join`). In this model every task is its own model
+/// thread, so a per-model-thread key would be fresh in every task and hide exactly that carry-over. The key is therefore
+/// kept in ONE store shared by all tasks of an execution ("whatever ran before may have left this behind"): every schedule
+/// shows a task the leftovers of the tasks the scheduler ran before it (the serial build's order is one such schedule, not
+/// necessarily the model's default one, which prefers the oldest runnable task). Code whose result does not depend on leftovers
+/// (a cache, a scratch buffer that is reset before use) is unaffected; code whose result does depend on them is
+/// schedule-dependent under real work stealing as well. The store lives in a real thread-local of the OS thread that runs
+/// the exploration (all model threads of one execution are coroutines on that thread) and is cleared by
+/// `reset_worker_locals()` at the start of every execution.
 pub struct LocalKey<T: 'static> {
-    inner: &'static shuttle::thread::LocalKey<T>,
+    init: fn() -> T,
 }
+std::thread_local! {
+    static WORKER_STORE: std::cell::RefCell<std::collections::HashMap<usize, Box<dyn std::any::Any>>> = std::cell::RefCell::new(std::collections::HashMap::new());
+}
+/// forget every worker-local value (call at the start of each explored execution)
+pub fn reset_worker_locals() {
+    WORKER_STORE.with(|m| m.borrow_mut().clear());
+}
+#[derive(Clone, Copy, Debug, PartialEq, Eq)]
+pub struct AccessError;
 impl<T: 'static> LocalKey<T> {
-    pub const fn new(inner: &'static shuttle::thread::LocalKey<T>) -> Self {
-        LocalKey { inner }
+    pub const fn new(init: fn() -> T) -> Self {
+        LocalKey { init }
     }
     pub fn with<F: FnOnce(&T) -> R, R>(&'static self, f: F) -> R {
-        self.inner.with(f)
+        let key = self as *const Self as usize;
+        let ptr: *const T = WORKER_STORE.with(|m| {
+            let mut m = m.borrow_mut();
+            let e = m.entry(key).or_insert_with(|| Box::new((self.init)()) as Box<dyn std::any::Any>);
+            e.downcast_ref::<T>().expect("worker-local type") as *const T
+        });
+        // SAFETY: the boxed value stays at this address until `reset_worker_locals()`, which is only called between
+        // executions; all users run on this OS thread
+        f(unsafe { &*ptr })
     }
-    pub fn try_with<F: FnOnce(&T) -> R, R>(&'static self, f: F) -> Result<R, shuttle::thread::AccessError> {
-        self.inner.try_with(f)
+    pub fn try_with<F: FnOnce(&T) -> R, R>(&'static self, f: F) -> Result<R, AccessError> {
+        Ok(self.with(f))
     }
 }
 impl<T: 'static> LocalKey<std::cell::Cell<T>> {
@@ -91,178 +117,6 @@ macro_rules! thread_local {
 macro_rules! __vsync_tl {
     ($(#[$attr:meta])* $vis:vis $name:ident, $t:ty, $init:expr) => {
         $(#[$attr])*
-        $vis static $name: $crate::LocalKey<$t> = {
-            $crate::shuttle::thread_local! {
-                static INNER: $t = $init;
-            }
-            $crate::LocalKey::new(&INNER)
-        };
+        $vis static $name: $crate::LocalKey<$t> = $crate::LocalKey::new(|| $init);
     };
-}
-
-pub mod sync {
-    pub use shuttle::sync::{atomic, mpsc, Barrier, BarrierWaitResult, Condvar, Once, OnceState, WaitTimeoutResult};
-    pub use std::sync::{Arc, LockResult, PoisonError, TryLockError, TryLockResult, Weak};
-
-    pub use shuttle::sync::{MutexGuard, RwLockReadGuard, RwLockWriteGuard};
-
-    #[derive(Debug, Default)]
-    pub struct Mutex<T: ?Sized>(shuttle::sync::Mutex<T>);
-
-    impl<T> Mutex<T> {
-        pub const fn new(value: T) -> Self {
-            Mutex(shuttle::sync::Mutex::new(value))
-        }
-        pub fn into_inner(self) -> LockResult<T> {
-            self.0.into_inner()
-        }
-    }
-    impl<T: ?Sized> Mutex<T> {
-        pub fn lock(&self) -> LockResult<MutexGuard<'_, T>> {
-            let g = self.0.lock();
-            shuttle::thread::yield_now(); // the holder may be preempted inside its critical section
-            g
-        }
-        pub fn try_lock(&self) -> TryLockResult<MutexGuard<'_, T>> {
-            let g = self.0.try_lock();
-            if g.is_ok() {
-                shuttle::thread::yield_now();
-            }
-            g
-        }
-        pub fn get_mut(&mut self) -> LockResult<&mut T> {
-            self.0.get_mut()
-        }
-    }
-    impl<T> From<T> for Mutex<T> {
-        fn from(v: T) -> Self {
-            Mutex::new(v)
-        }
-    }
-
-    #[derive(Debug, Default)]
-    pub struct RwLock<T: ?Sized>(shuttle::sync::RwLock<T>);
-
-    impl<T> RwLock<T> {
-        pub const fn new(value: T) -> Self {
-            RwLock(shuttle::sync::RwLock::new(value))
-        }
-        pub fn into_inner(self) -> LockResult<T> {
-            self.0.into_inner()
-        }
-    }
-    impl<T: ?Sized> RwLock<T> {
-        pub fn read(&self) -> LockResult<RwLockReadGuard<'_, T>> {
-            let g = self.0.read();
-            shuttle::thread::yield_now();
-            g
-        }
-        pub fn write(&self) -> LockResult<RwLockWriteGuard<'_, T>> {
-            let g = self.0.write();
-            shuttle::thread::yield_now();
-            g
-        }
-        pub fn try_read(&self) -> TryLockResult<RwLockReadGuard<'_, T>> {
-            let g = self.0.try_read();
-            if g.is_ok() {
-                shuttle::thread::yield_now();
-            }
-            g
-        }
-        pub fn try_write(&self) -> TryLockResult<RwLockWriteGuard<'_, T>> {
-            let g = self.0.try_write();
-            if g.is_ok() {
-                shuttle::thread::yield_now();
-            }
-            g
-        }
-        pub fn get_mut(&mut self) -> LockResult<&mut T> {
-            self.0.get_mut()
-        }
-    }
-
-    /// `std::sync::OnceLock`: the value lives in a real `OnceLock` (so `get` can hand out `&T`), every access is a
-    /// scheduling point, and initialisation is serialised by a scheduler-visible lock (blocked initialisers are
-    /// modelled as blocked threads instead of blocking the single OS thread all model threads run on).
-    #[derive(Debug)]
-    pub struct OnceLock<T> {
-        cell: std::sync::OnceLock<T>,
-        init: shuttle::sync::Mutex<()>,
-    }
-    impl<T> Default for OnceLock<T> {
-        fn default() -> Self {
-            Self::new()
-        }
-    }
-    impl<T> OnceLock<T> {
-        pub const fn new() -> Self {
-            OnceLock { cell: std::sync::OnceLock::new(), init: shuttle::sync::Mutex::new(()) }
-        }
-        pub fn get(&self) -> Option<&T> {
-            shuttle::thread::yield_now();
-            self.cell.get()
-        }
-        pub fn get_mut(&mut self) -> Option<&mut T> {
-            self.cell.get_mut()
-        }
-        pub fn set(&self, value: T) -> Result<(), T> {
-            shuttle::thread::yield_now();
-            let _g = self.init.lock().unwrap();
-            self.cell.set(value)
-        }
-        pub fn get_or_init<F: FnOnce() -> T>(&self, f: F) -> &T {
-            shuttle::thread::yield_now();
-            if let Some(v) = self.cell.get() {
-                return v;
-            }
-            let _g = self.init.lock().unwrap();
-            shuttle::thread::yield_now();
-            if self.cell.get().is_none() {
-                let _ = self.cell.set(f());
-            }
-            self.cell.get().unwrap()
-        }
-        pub fn into_inner(self) -> Option<T> {
-            self.cell.into_inner()
-        }
-        pub fn take(&mut self) -> Option<T> {
-            self.cell.take()
-        }
-    }
-    impl<T: Clone> Clone for OnceLock<T> {
-        fn clone(&self) -> Self {
-            let c = OnceLock::new();
-            if let Some(v) = self.cell.get() {
-                let _ = c.cell.set(v.clone());
-            }
-            c
-        }
-    }
-    impl<T> From<T> for OnceLock<T> {
-        fn from(v: T) -> Self {
-            let c = OnceLock::new();
-            let _ = c.cell.set(v);
-            c
-        }
-    }
-
-    /// `std::sync::LazyLock` on top of the OnceLock model.
-    pub struct LazyLock<T, F = fn() -> T> {
-        cell: OnceLock<T>,
-        f: std::sync::Mutex<Option<F>>,
-    }
-    impl<T, F: FnOnce() -> T> LazyLock<T, F> {
-        pub const fn new(f: F) -> Self {
-            LazyLock { cell: OnceLock::new(), f: std::sync::Mutex::new(Some(f)) }
-        }
-        pub fn force(this: &Self) -> &T {
-            this.cell.get_or_init(|| (this.f.lock().unwrap().take().expect("LazyLock initialiser ran twice"))())
-        }
-    }
-    impl<T, F: FnOnce() -> T> std::ops::Deref for LazyLock<T, F> {
-        type Target = T;
-        fn deref(&self) -> &T {
-            LazyLock::force(self)
-        }
-    }
 }
